@@ -36,9 +36,10 @@ const (
 	OpOnce
 	OpAtomic
 	OpYield
+	OpSelect
 )
 
-var opNames = [...]string{"start", "continue", "send", "recv", "close", "lock", "unlock", "rlock", "runlock", "wgadd", "wgwait", "once", "atomic", "yield"}
+var opNames = [...]string{"start", "continue", "send", "recv", "close", "lock", "unlock", "rlock", "runlock", "wgadd", "wgwait", "once", "atomic", "yield", "select"}
 
 func (k OpKind) String() string { return opNames[k] }
 
@@ -80,27 +81,30 @@ func (v VC) get(i int) uint32 {
 
 // G is a controlled goroutine.
 type G struct {
-	ID     int
-	Parent int
-	resume chan struct{}
-	state  int
-	kind   OpKind // pending op kind when runnable and not woken
-	obj    int    // pending op object id
-	arg    int    // pending op argument (wg delta, ...)
-	woken  bool   // runnable because the partner completed the blocked op
-	val    any
-	ok     bool
-	pnc    bool // wake up with "send on closed channel"
-	clock  VC
-	wake   VC // clock to join when continuing after a wake-up
-	block  string
-	lastEv int
+	ID      int
+	Parent  int
+	resume  chan struct{}
+	state   int
+	kind    OpKind // pending op kind when runnable and not woken
+	obj     int    // pending op object id
+	arg     int    // pending op argument (wg delta, ...)
+	woken   bool   // runnable because the partner completed the blocked op
+	val     any
+	ok      bool
+	pnc     bool // wake up with "send on closed channel"
+	clock   VC
+	wake    VC // clock to join when continuing after a wake-up
+	block   string
+	lastEv  int
+	selObjs []int // objects of a pending select
 }
 
 type waiter struct {
 	g   *G
 	val any
 	vc  VC
+	sel *Sel // non-nil: registered by a blocked select
+	idx int
 }
 
 type item struct {
@@ -109,17 +113,18 @@ type item struct {
 }
 
 type chanState struct {
-	id     int
-	pin    any
-	cap    int
-	buf    []item
-	closed bool
-	cvc    VC
-	recvq  []*G
-	sendq  []waiter
-	slots  []VC // clock of the k-th receive (k-th recv happens-before the (k+cap)-th send)
-	nsend  int
-	site   string
+	id      int
+	pin     any
+	cap     int
+	buf     []item
+	closed  bool
+	cvc     VC
+	recvq   []*G
+	recvSel []selWaiter // select registrations among recvq
+	sendq   []waiter
+	slots   []VC // clock of the k-th receive (k-th recv happens-before the (k+cap)-th send)
+	nsend   int
+	site    string
 }
 
 // Event is one scheduling step: goroutine G executed its pending operation.
@@ -129,7 +134,8 @@ type Event struct {
 	Obj     int
 	Arg     int
 	Blocked bool
-	Clock   VC // clock of G at the event (only when tracking clocks)
+	Clock   VC    // clock of G at the event (only when tracking clocks)
+	Objs    []int // OpSelect: every channel of the statement
 }
 
 // Point is a scheduling point: the enabled set (canonical order) and the choice taken.
@@ -144,6 +150,14 @@ type Pending struct {
 	Kind OpKind
 	Obj  int
 	Arg  int
+	Objs []int // OpSelect
+}
+
+// AltPoint is a data choice taken during event At-1 (which of N ready select cases proceeds).
+type AltPoint struct {
+	At     int
+	N      int
+	Choice int
 }
 
 // Chooser decides which of the enabled goroutines moves next. enabled is in
@@ -177,12 +191,13 @@ type RaceInfo struct {
 // Options configure one execution.
 type Options struct {
 	Chooser      Chooser
-	Record       bool // record events and points
-	RecordN      bool // record only the size of the enabled set at every point (delay-bounded DFS)
-	Clocks       bool // maintain vector clocks
-	Races        bool // run the happens-before race detector on Access calls (implies Clocks)
-	Sites        bool // capture source positions of blocking operations (slow)
-	MaxEvents    int  // cut the execution after this many events (0 = default 5M)
+	AltChooser   func(s *Sched, n int) int // picks among n alternatives (ready select cases); nil = first
+	Record       bool                      // record events and points
+	RecordN      bool                      // record only the size of the enabled set at every point (delay-bounded DFS)
+	Clocks       bool                      // maintain vector clocks
+	Races        bool                      // run the happens-before race detector on Access calls (implies Clocks)
+	Sites        bool                      // capture source positions of blocking operations (slow)
+	MaxEvents    int                       // cut the execution after this many events (0 = default 5M)
 	OnPoint      func(s *Sched)
 	KeepChannels bool
 }
@@ -200,7 +215,8 @@ type Result struct {
 	UncheckedZero []string // single-value receives that returned the zero value of a closed channel
 	Trace         []Event
 	Points        []Point
-	NEnabled      []int32 // with RecordN: size of the enabled set per point
+	NEnabled      []int32 // with RecordN: size of the enabled set per point (scheduling points and data choices, in order)
+	Alts          []AltPoint
 	MaxEnabled    int
 	Buffered      int    // values left in channel buffers at quiescence
 	Internal      string // non-empty: internal error of the machinery (never a property violation)
@@ -425,6 +441,8 @@ func (s *Sched) dispatch(from *G) {
 		ev := Event{G: g.ID, Kind: g.kind, Obj: g.obj, Arg: g.arg}
 		if g.woken {
 			ev.Kind = OpContinue
+		} else if g.kind == OpSelect {
+			ev.Objs = g.selObjs
 		}
 		if s.opt.Clocks {
 			ev.Clock = g.clock.copyVC()
@@ -564,9 +582,7 @@ func Send[T any](c chan<- T, v T) {
 		s.record(g, false)
 		panic("send on closed channel")
 	}
-	if len(cs.recvq) > 0 {
-		r := cs.recvq[0]
-		cs.recvq = cs.recvq[1:]
+	if r := cs.popRecv(); r != nil {
 		r.val, r.ok = v, true
 		s.wakeG(r, g)
 		s.record(g, false)
@@ -628,22 +644,24 @@ func recvImpl[T any](c <-chan T) (T, bool) {
 		} else {
 			s.record(g, false)
 		}
-		if len(cs.sendq) > 0 {
-			w := cs.sendq[0]
-			cs.sendq = cs.sendq[1:]
+		if w, ok := cs.popSend(); ok {
 			cs.buf = append(cs.buf, item{val: w.val, vc: w.vc})
 			cs.nsend++
 			s.wakeG(w.g, g)
 		}
+		if it.val == nil {
+			return zero, true
+		}
 		return it.val.(T), true
 	}
-	if len(cs.sendq) > 0 {
-		w := cs.sendq[0]
-		cs.sendq = cs.sendq[1:]
+	if w, ok := cs.popSend(); ok {
 		s.record(g, false)
 		s.wakeG(w.g, g)
 		if s.opt.Clocks {
 			g.clock.join(w.vc)
+		}
+		if w.val == nil {
+			return zero, true
 		}
 		return w.val.(T), true
 	}
@@ -727,16 +745,22 @@ func Close[T any](c chan<- T) {
 	if s.opt.Clocks {
 		cs.cvc = g.clock.copyVC()
 	}
-	for _, r := range cs.recvq {
+	for {
+		r := cs.popRecv()
+		if r == nil {
+			break
+		}
 		r.val, r.ok = nil, false
 		s.wakeG(r, g)
 	}
-	cs.recvq = nil
-	for _, w := range cs.sendq {
+	for {
+		w, ok := cs.popSend()
+		if !ok {
+			break
+		}
 		w.g.pnc = true
 		s.wakeG(w.g, g)
 	}
-	cs.sendq = nil
 }
 
 // Yield is a pure scheduling point (shim of time.Sleep and runtime.Gosched).
@@ -754,6 +778,9 @@ func Yield() {
 func (g *G) PendingOp() Pending {
 	if g.woken {
 		return Pending{Kind: OpContinue, Obj: -1}
+	}
+	if g.kind == OpSelect {
+		return Pending{Kind: OpSelect, Obj: -3, Objs: g.selObjs}
 	}
 	return Pending{Kind: g.kind, Obj: g.obj, Arg: g.arg}
 }
